@@ -38,7 +38,20 @@ func iterateHelpersStopOnTrue(r *Run, rule string) {
 				cbCalls = append(cbCalls, ci)
 			}
 		})
-		if len(nexts) == 0 || len(cbCalls) == 0 {
+		if len(cbCalls) == 0 {
+			continue
+		}
+		// once the callback asked to stop it is never invoked again
+		isCb := func(in ssa.Instruction) bool {
+			ci, ok := in.(ssa.CallInstruction)
+			return ok && ci.Common().Value == ssa.Value(cb)
+		}
+		for _, e := range P.ifEdgesFor(f, `^dyn\[param:`+pinnedParamName(cb)+`\]\(`) {
+			n++
+			reach, w, _ := ReachFromEdge(e.B, e.I, isCb, nil, nil)
+			r.Check(!reach, rule, "stop-ends-the-walk@"+short(f.String()), P.Pos(f.Pos()), "no callback invocation after stop=true", short(f.String())+" invokes its callback again ("+P.InstrPos(w)+") after it returned stop=true: the flag is ignored or inverted")
+		}
+		if len(nexts) == 0 {
 			continue
 		}
 		for _, nx := range nexts {
@@ -329,15 +342,175 @@ func missedArrayReadsPresentEntries(r *Run, rule string) {
 			return
 		}
 		n++
+		if len(ci.Common().Args) >= 2 {
+			at := P.TermAt(ci.Common().Args[1], in).String()
+			r.Check(strings.Contains(at, "MustUnmarshalBinaryLengthPrefixed("), rule, "IterateAndExecuteOverMissedArray/callback-gets-decoded-bit", P.InstrPos(in), "the stored bit, decoded", "the callback receives "+oneLine(at)+" as the missed flag ; required the value decoded from the stored bytes")
+		}
 		ok2, _ := HasAtom(P.Guards(in, 0), `^!isnil\(store/types\.KVStore\.Get\(`)
 		r.Check(ok2, rule, "IterateAndExecuteOverMissedArray/callback-on-present", P.InstrPos(in), "callback under Get != nil", "the callback runs under {"+strings.Join(atomStrings(P.Guards(in, 0)), " ; ")+"} ; required store.Get(key) != nil (absent slots would be reported, present ones skipped)")
 	})
 	if n == 0 {
 		r.Viol(rule, "IterateAndExecuteOverMissedArray/callback-on-present", P.Pos(f.Pos()), "the callback is no longer invoked")
 	}
+	// an unset slot is skipped, not the end of the walk: from the "nothing stored" edge the next slot is still read
+	isGet := CallTo("store/types.KVStore.Get")
+	for _, e := range P.ifEdgesFor(f, `^isnil\(store/types\.KVStore\.Get\(`) {
+		reach, _, _ := ReachFromEdge(e.B, e.I, isGet, nil, nil)
+		r.Check(reach, rule, "IterateAndExecuteOverMissedArray/sparse-array-walked-through", P.Pos(f.Pos()), "the walk continues past an unset slot", "after an unset slot no further slot is read: the sparse missed-block array is truncated at its first gap")
+	}
 }
 
 func init() {
 	extend("C06", func(r *Run) { stakePubKeyType(r, "C06-R13") })
 	extend("C08", func(r *Run) { missedArrayReadsPresentEntries(r, "C08-R9") })
+}
+
+// burnAccumulates: a queued burn is added to what is already queued (C07-R15).
+func burnAccumulates(r *Run, rule string) {
+	P := r.P
+	r.Rule(rule, "BurnValidator accumulates: the severity is added to the queued value when one was found and to ZeroDec() only when none was — the receiver of Add is the merge of exactly these two, selected by `found`", 1)
+	f := r.fn(posK + "BurnValidator")
+	if f == nil {
+		return
+	}
+	get := posK + "getValidatorBurn(param:k, param:ctx, param:address)"
+	if len(CallsIn(f, "(types.Dec).Add")) == 0 || len(CallsIn(f, posK+"getValidatorBurn")) == 0 {
+		r.Viol(rule, "BurnValidator/zero-iff-not-found", P.Pos(f.Pos()), "BurnValidator no longer reads the queued burn and adds to it: a second report in the same block overwrites the first")
+	}
+	for _, c := range CallsIn(f, "(types.Dec).Add") {
+		ci, ok := c.(*ssa.Call)
+		if !ok || len(ci.Call.Args) == 0 {
+			continue
+		}
+		recv := ci.Call.Args[0]
+		// look through the load of the local the two alternatives are merged in
+		okSel := false
+		if phi, isPhi := recv.(*ssa.Phi); isPhi {
+			okSel = true
+			for i, e := range phi.Edges {
+				t := P.TermAt(e, phi).String()
+				p := phi.Block().Preds[i]
+				k := 0
+				for j, s := range p.Succs {
+					if s == phi.Block() {
+						k = j
+					}
+				}
+				gs := P.EdgeGuards(p, k)
+				found, _ := HasAtom(gs, `^`+q(get+"#1")+`$`)
+				notFound, _ := HasAtom(gs, `^!`+q(get+"#1")+`$`)
+				switch {
+				case t == "types.ZeroDec()":
+					if !notFound {
+						okSel = false
+					}
+				case t == get+"#0":
+					if !found {
+						okSel = false
+					}
+				default:
+					okSel = false
+				}
+			}
+		}
+		r.Check(okSel, rule, "BurnValidator/zero-iff-not-found", P.InstrPos(c), "queued value when found, ZeroDec() when not", "BurnValidator adds the severity to "+oneLine(P.TermAt(recv, c).String())+": the queued burn is used when it was NOT found (a nil Dec) or discarded when it was found")
+	}
+}
+
+// txContextCaching: only a simulation runs on a throw-away copy of the state context (C11-R17).
+func txContextCaching(r *Run, rule string) {
+	P := r.P
+	r.Rule(rule, "getContextForTx wraps the context in a CacheContext exactly under mode == Simulate: CheckTx and DeliverTx run on their state's own context (a cached deliver context would silently drop every delivered transaction's writes)", 1)
+	f := r.fn("(*baseapp.BaseApp).getContextForTx")
+	if f == nil {
+		return
+	}
+	cs := CallsIn(f, "types.Ctx.CacheContext")
+	if len(cs) == 0 {
+		cs = CallsIn(f, "(types.Context).CacheContext")
+	}
+	if len(cs) == 0 {
+		r.Viol(rule, "getContextForTx/cache-in-simulate", P.Pos(f.Pos()), "getContextForTx no longer creates a cache context for simulations")
+		return
+	}
+	for _, c := range cs {
+		gs := P.Guards(c, 0)
+		ok, _ := HasAtom(gs, `^\(1 == param:mode\)$`)
+		r.Check(ok, rule, "getContextForTx/cache-in-simulate", P.InstrPos(c), "under mode == Simulate", "CacheContext is created under {"+strings.Join(atomStrings(gs), " ; ")+"} ; required mode == Simulate only")
+	}
+}
+
+func init() {
+	extend("C07", func(r *Run) { burnAccumulates(r, "C07-R15") })
+	extend("C11", func(r *Run) { txContextCaching(r, "C11-R17") })
+}
+
+func init() {
+	extend("C10", func(r *Run) {
+		r.Rule("C10-R9", "an award raises the supply by exactly the award: MintCoins adds amt to the module account and inflates the supply by the same amt (not by the account's new balance), SetSupply only after AddCoins succeeded (= C02-R3)", 3)
+		if f := r.fn(bankK + "MintCoins"); f != nil {
+			mintBurnRule = "C10-R9"
+			checkMintBurn(r, f, "MintCoins", "AddCoins", "Inflate", "minter")
+			mintBurnRule = "C02-R3"
+		}
+	})
+	extend("C07", func(r *Run) {
+		r.Rule("C07-R16", "a slash lowers the supply by exactly what is burned: BurnCoins subtracts amt from the module account and deflates the supply by the same amt (= C02-R3); the slash amount is truncated toward zero: Dec.TruncateInt is chopPrecisionAndTruncate", 4)
+		if f := r.fn(bankK + "BurnCoins"); f != nil {
+			mintBurnRule = "C07-R16"
+			checkMintBurn(r, f, "BurnCoins", "SubtractCoins", "Deflate", "burner")
+			mintBurnRule = "C02-R3"
+		}
+		if f := r.fn("(types.Dec).TruncateInt"); f != nil {
+			for _, ret := range Returns(f) {
+				t := r.P.TermAt(ret.Results[0], ret).String()
+				r.Check(t == "types.NewIntFromBigInt(types.chopPrecisionAndTruncateNonMutative(param:d.Int))", "C07-R16", "Dec.TruncateInt", r.P.InstrPos(ret), t, "Dec.TruncateInt returns "+t+" ; required the truncating chop (the slash amount must never round up)")
+			}
+		}
+		// the arithmetic the slash amount is computed with belongs to this property's scope
+		for _, n := range []string{"types.TokensFromConsensusPower", "(types.Int).ToDec", "(types.Dec).Mul", "types.MinInt", "types.MaxInt"} {
+			r.fnOpt(n)
+		}
+	})
+}
+
+// genesisDuplicateCheck: the seen-set of validateGenesisStateValidators is filled (C04-R7, C06-R14).
+func genesisDuplicateCheck(r *Run, rule string) {
+	P := r.P
+	r.Rule(rule, "a genesis that lists a validator twice is refused: validateGenesisStateValidators looks every validator's key up in a seen-set and records it there on every iteration that passes the checks before it (InitGenesis adds each listed validator's tokens to the pool funding, so a duplicate would fund the pool twice for one record)", 2)
+	f := r.fn("x/pos.validateGenesisStateValidators")
+	if f == nil {
+		return
+	}
+	var lookups []*ssa.Lookup
+	var updates []*ssa.MapUpdate
+	Instrs(f, func(in ssa.Instruction) {
+		switch x := in.(type) {
+		case *ssa.Lookup:
+			if _, isMap := x.X.Type().Underlying().(*types.Map); isMap {
+				lookups = append(lookups, x)
+			}
+		case *ssa.MapUpdate:
+			updates = append(updates, x)
+		}
+	})
+	if len(lookups) == 0 {
+		r.Viol(rule, "validateGenesisStateValidators/looks-up-seen-set", P.Pos(f.Pos()), "no duplicate look-up any more")
+		return
+	}
+	r.OK(rule, "validateGenesisStateValidators/looks-up-seen-set", P.InstrPos(lookups[0]), "seen-set consulted")
+	ok := false
+	for _, u := range updates {
+		for _, l := range lookups {
+			if u.Map == l.X && canonAtom(P.TermAt(u.Key, u).String()) == canonAtom(P.TermAt(l.Index, l).String()) {
+				ok = true
+			}
+		}
+	}
+	r.Check(ok, rule, "validateGenesisStateValidators/records-seen-key", P.Pos(f.Pos()), "the looked-up key is recorded", "the seen-set is consulted but the key is never recorded in it: the duplicate check cannot fire")
+}
+
+func init() {
+	extend("C04", func(r *Run) { genesisDuplicateCheck(r, "C04-R7") })
+	extend("C06", func(r *Run) { genesisDuplicateCheck(r, "C06-R14") })
 }
